@@ -174,6 +174,17 @@ def run(ctx: Ctx):
         checks.append(("Sphere(center)/integer-representative", 1, lambda h=h, c=c: (g.Sphere(g.Point(np.array(h)), 2).array, g.Sphere(g.Point(*c), 2.0).array)))
         checks.append(("rotation(axis)/integer-representative", 1, lambda h=h, c=c: (g.rotation(0.7, axis=g.Point(np.array(h))).array, g.rotation(0.7, axis=g.Point(*c)).array)))
         checks.append(("Cone(vertex)/integer-representative", 1, lambda h=h, c=c: (g.Cone(g.Point(np.array(h)), g.Point(1, 1, 5), 2).array, g.Cone(g.Point(*c), g.Point(1, 1, 5), 2.0).array)))
+    # cross ratio of four concurrent lines of 3-space (pencil through a finite point, through the origin, parallel lines):
+    # one argument at a time rescaled
+    for V, pts in (((1, 2, 3, 1), [(0, 0, 0), (1, 0, 0), (2, 0, 0), (5, 0, 0)]), ((0, 0, 0, 1), [(1, 1, 0), (2, 1, 0), (3, 1, 0), (6, 1, 0)]),
+                   ((1, 2, 3, 0), [(0, 0, 0), (1, 0, 0), (3, 0, 0), (4, 0, 0)]), ((1, 1, 0, 0), [(0, 0, 1), (0, 1, 1), (0, 3, 1), (0, 4, 1)]),
+                   ((0, 0, 1, 0), [(1, 0, 0), (2, 0, 0), (4, 0, 0), (5, 0, 0)])):
+        mkl = lambda k, f, V=V, pts=pts: [g.Line(np.asarray(l.array) * (f if i == k else 1)) for i, l in
+                                         enumerate(g.Line(g.Point(np.array(V)), g.Point(*p)) for p in pts)]  # noqa: E731
+        for k in range(4):
+            for f in FACT:
+                checks.append((f"crossratio(line3 pencil, vertex {V})", f,
+                               lambda k=k, f=f, mkl=mkl: (np.array([g.crossratio(*mkl(k, f)), 1.0]), np.array([g.crossratio(*mkl(k, 1)), 1.0]))))
     for name, f, fn in checks:
         n_cases += 1
         stratum = "integer-representative" if "integer-representative" in name else ("negative-factor" if f < 0 else "positive-factor")
